@@ -158,7 +158,8 @@ func evalHello(r *ev.Run, c helloCase, ks [][]ech.Key, tail []byte, tag string) 
 		oc = "ACCEPTED"
 		r.Violation("accepted-garbage:"+tag, "ECH accepted for a hello with no authentic payload", replay)
 	default:
-		if len(res.Forwarded) != len(stream) || len(stream) < 5 || !bytes.Equal(res.Forwarded[3:], stream[3:]) || res.Forwarded[0] != stream[0] {
+		// (byte for byte, the record header's legacy version included: clients put 0x0301 there on their first hello)
+		if !bytes.Equal(res.Forwarded, stream) {
 			oc = "modified"
 			r.Violation("bytes-modified:"+tag+":"+kindOf(c), fmt.Sprintf("forwarded bytes differ from the client's bytes:\n got  %x\n sent %x", res.Forwarded, stream), replay)
 		}
@@ -180,6 +181,22 @@ func evalHello(r *ev.Run, c helloCase, ks [][]ech.Key, tail []byte, tag string) 
 			if again := res.Conn.ALPNProtos(); !slices.Equal(again, want) {
 				r.Violation("reported-alpn-aliases-state:"+tag, fmt.Sprintf("after the caller modified the slice returned by ALPNProtos(), a second call reports %q (first %q)", again, want), replay)
 			}
+		}
+		// what a relay does when the backend has finished sending: half-close towards the client IF the connection offers it (a
+		// type assertion in generic code). Over a transport that has no CloseWrite a Conn either offers no such method or one
+		// that leaves the read side alone - the transport is not closed, the client's later bytes still arrive
+		if cw, ok := any(res.Conn).(interface{ CloseWrite() error }); ok {
+			_ = cw.CloseWrite()
+			if res.Transport.CloseCount != 0 {
+				r.Violation("closewrite-closes-the-connection:"+tag, "the Conn offers CloseWrite; called over a transport without one it closed the whole connection: what the client sends after the backend has finished is lost", replay)
+			}
+		}
+		// the accessors state facts about the handshake: they read the same after the connection was closed (an access log
+		// written at the end of the connection)
+		before := fmt.Sprintf("%q %q %v %v", res.Conn.ServerName(), res.Conn.ALPNProtos(), res.Conn.ECHAccepted(), res.Conn.ECHPresented())
+		_ = res.Conn.Close()
+		if after := fmt.Sprintf("%q %q %v %v", res.Conn.ServerName(), res.Conn.ALPNProtos(), res.Conn.ECHAccepted(), res.Conn.ECHPresented()); after != before {
+			r.Violation("accessors-change-after-close:"+tag, fmt.Sprintf("ServerName/ALPNProtos/ECHAccepted/ECHPresented read %s before Close and %s after it", before, after), replay)
 		}
 	}
 	r.Eval(string(stream)+fmt.Sprint(c.KeySet), oc)
@@ -285,7 +302,7 @@ func Run(r *ev.Run) {
 					r.Violation("accepted-without-tls13", "ECH accepted for a hello that does not offer TLS 1.3", replay)
 				case res.Err != nil:
 					r.Violation("valid-hello-refused:no-tls13-authentic-ech", res.Err.Error(), replay)
-				case len(res.Forwarded) != len(stream) || !bytes.Equal(res.Forwarded[3:], stream[3:]):
+				case !bytes.Equal(res.Forwarded, stream):
 					r.Violation("bytes-modified:no-tls13-authentic-ech", "forwarded bytes differ", replay)
 				case res.ServerName != "plain.example.org":
 					r.Violation("name-alpn-differs:no-tls13-authentic-ech", fmt.Sprintf("ServerName()=%q, the outer hello says plain.example.org", res.ServerName), replay)
@@ -374,7 +391,7 @@ func Run(r *ev.Run) {
 					r.Violation("valid-hello-refused:coalesced:with-keys", fmt.Sprintf("the first record (a hello that is not decrypted, followed by %d bytes) was refused: %v", len(extra), res.Err), replay)
 				case res.Accepted:
 					r.Violation("accepted-garbage:coalesced", "ECH accepted", replay)
-				case len(res.Forwarded) != len(stream) || !bytes.Equal(res.Forwarded[3:], stream[3:]):
+				case !bytes.Equal(res.Forwarded, stream):
 					oc = "coalesced-modified"
 					r.Violation("bytes-modified:coalesced", fmt.Sprintf("bytes that follow the ClientHello inside its record were not handed on: forwarded %d bytes, sent %d:\n got  %x\n sent %x", len(res.Forwarded), len(stream), res.Forwarded, stream), replay)
 				}
@@ -403,7 +420,7 @@ func Run(r *ev.Run) {
 				got1, e1, _ := sess.ReadOnce()
 				n, e2, _ := sess.BackendSend(hrr)
 				got2, e3, p3 := sess.ClientSend(secondRec)
-				if e1 != nil || e2 != nil || n != len(hrr) || !bytes.Equal(got1[3:], first[3:]) || !bytes.Equal(sess.T.OutBytes(), hrr) {
+				if e1 != nil || e2 != nil || n != len(hrr) || !bytes.Equal(got1, first) || !bytes.Equal(sess.T.OutBytes(), hrr) {
 					r.Violation("bytes-modified:hrr-family:first-flight", fmt.Sprintf("first hello / HelloRetryRequest not passed through: %v %v", e1, e2), replay)
 				}
 				if p3 != nil || e3 != nil || !bytes.Equal(got2, secondRec) {
@@ -479,7 +496,7 @@ func Run(r *ev.Run) {
 					r.Violation("valid-hello-refused:fragmented:"+sizeClass(f.name), fmt.Sprintf("NewConn refused a ClientHello that is split over several records (RFC 8446 §5.1): %v", res.Err), replay)
 				case res.Accepted:
 					r.Violation("accepted-garbage:fragmented", "ECH accepted", replay)
-				case !bytes.Equal(res.Forwarded, stream) && !(len(res.Forwarded) == len(stream) && bytes.Equal(res.Forwarded[3:], stream[3:])):
+				case !bytes.Equal(res.Forwarded, stream):
 					oc = "fragmented-modified"
 					r.Violation("bytes-modified:fragmented:"+sizeClass(f.name), fmt.Sprintf("forwarded bytes differ from the client's bytes (got %d bytes, sent %d)", len(res.Forwarded), len(stream)), replay)
 				case res.ServerName != "plain.example.org":
